@@ -65,7 +65,9 @@ namespace Givaro
 
               template<typename T> Element& init(Element& r, const T& a) const
               {
-                  reduce(r, Caster<Element>((a < 0)? -a : a));
+                  // negate integral sources in 64 bits: -a overflows in int for INT32_MIN
+                  typedef typename std::conditional<std::is_integral<T>::value && std::is_signed<T>::value, int64_t, T>::type Wide;
+                  reduce(r, Caster<Element>((a < 0)? -Wide(a) : Wide(a)));
                   if (a < 0) negin(r);
                   return r;
               }
